@@ -56,7 +56,18 @@ def paging_bits(rng):
     out = []
     for _ in range(rng.randint(1, 3)):
         v = rng.choice([0, 1, 3, 7, 0x10, 0x17, 0x24, rng.randrange(256)])
-        out += [0x01, 0xFD, 0x7F, 0x3E, v, 0xED, 0x79]                       # LD BC,7FFD; LD A,v; OUT (C),A
+        # the paging port is decoded on A15=0 and A1=0 only: aliases must page too, near misses must not
+        port = rng.choice([0x7FFD, 0x7FFD, 0x3FFD, 0x01FD, 0x5FF9, 0x7FFC, 0x00FD, 0xBFFD, 0x7FFF, 0xFFFD])
+        if rng.random() < 0.25:
+            out += [0x3E, v & 0x7F, 0xD3, 0xFD]                                 # LD A,v; OUT (FD),A  (port = A*256+0xFD, A15 clear)
+        else:
+            out += [0x01, port & 0xFF, port >> 8, 0x3E, v, 0xED, 0x79]          # LD BC,port; LD A,v; OUT (C),A
+        if rng.random() < 0.7:
+            # make the paged-in bank (and ROM) observable: copy a byte from it to fixed RAM and modify the bank
+            a = 0xC000 + rng.choice([0, 1, 0x100, 0x3FFF])
+            d = 0x5B00 + rng.randrange(64)
+            out += [0x3A, a & 0xFF, a >> 8, 0x32, d & 0xFF, d >> 8, 0x3C, 0x32, a & 0xFF, a >> 8,
+                    0x3A, rng.choice([0x00, 0x66, 0xFF]), rng.choice([0x00, 0x15, 0x3F]), 0x32, (d + 64) & 0xFF, (d + 64) >> 8]
     for _ in range(rng.randint(0, 2)):
         reg = rng.choice([0, 7, 8, 13, 15, 16, 31, rng.randrange(256)])
         out += [0x01, 0xFD, 0xFF, 0x3E, reg, 0xED, 0x79, 0x06, 0xBF, 0x3E, rng.randrange(256), 0xED, 0x79]   # select AY reg, write value
